@@ -79,7 +79,7 @@ def run(ctx, n_bases=None, rng_name="main", max_seconds=None):
             ctx.note("search stopped after %d bases (time cap %ss)" % (i, max_seconds))
             break
         odd = rng.random() < 0.2
-        a = G.gen_schema(rng, odd=odd, computed=True)
+        a = G.gen_schema(rng, odd=odd, computed=True, unnamed_uq=True)
         ctx.hist("base.class", "odd" if odd else "plain")
         ctx.hist("base.tables", len(a["tables"]))
         for desc, b in G.candidate_mutations(rng, a, odd):
